@@ -11,5 +11,6 @@ FINDINGS = [
          example="{'alpha': {'typ': 'dict', 'doc': 'the value'}} -> class Cfg: alpha: dict = {}"),
 ]
 FIXED = [
+    "fixed: property=C04 cbd61a3 argparse: a parameter typed Literal['a'] (exactly one member) was emitted without choices, so the populated parser accepted any value (found when the single-member Literal joined the type alphabet)",
     "fixed: property=C04 19dbe71 argparse: a default-less parameter typed Literal[1, 2] was emitted as add_argument(choices=(1, 2)) without type=int, so the populated parser rejected every value ('1' is not among the ints)",
 ]
